@@ -853,15 +853,62 @@ fn lookalikes(ctx: &Ctx, prop: &'static str) -> Tally {
     })
 }
 
+/// The fragmented muxer stores sample payloads verbatim: payloads that look like Annex B input
+/// (a valid length prefix can spell a start code), like ADTS, or like nothing must all come back
+/// byte for byte, for every codec configuration.
+fn payload_shapes(ctx: &Ctx, prop: &'static str) -> Tally {
+    let mut shapes: Vec<Vec<u8>> = vec![
+        vec![0, 0, 0, 1, 9, 0, 0, 0, 3, 0x65, 1, 2],
+        vec![0, 0, 0, 1],
+        vec![0, 0, 1, 0x65, 0x88],
+        vec![0, 0, 0, 2, 0xaa, 0xbb],
+        vec![0, 0, 0, 5, 0, 0, 1, 0x65, 0xaa],
+        vec![0xff, 0xf1, 0x50, 0x80, 0x01, 0x7f, 0xfc, 0x21],
+        vec![0x5a, 0, 0, 3, 1, 0, 0, 0],
+        vec![0; 7],
+    ];
+    // a first unit of 256..511 bytes: its 4-byte length prefix reads 00 00 01 xx
+    let mut long = vec![0u8, 0, 1, 0x2c];
+    long.extend((0..300).map(|i| 0x30 + (i % 0x40) as u8));
+    shapes.push(long);
+    let cfgs: Vec<FCfg> = configs(false).into_iter().filter(|c| c.start_dts == 0).collect();
+    let items: Vec<(FCfg, usize)> = cfgs.iter().flat_map(|c| (0..shapes.len()).map(move |i| (c.clone(), i))).collect();
+    par_items(&items, ctx.seed, |idx, (cfg, si), t| {
+        let mut h: Vec<FOp> = vec![];
+        for i in 0..3u64 {
+            let data = if i == 1 { body(7, 5) } else { shapes[*si].clone() };
+            h.push(FOp::Write { pts: i * 3000, dts: i * 3000, data: oracle::model::hex(&data), sync: i == 0 });
+        }
+        h.push(FOp::Flush);
+        t.evaluations += 1;
+        t.states += 1;
+        t.transitions += h.len() as u64;
+        match guarded(|| replay_history(cfg, &h)) {
+            Ok(Ok((_, _, issues))) => {
+                for (p, sig, detail) in issues {
+                    if p == prop {
+                        t.violation(&format!("{p}/payload-shape/{sig}"), (6_700_000 + idx as u64, 0), || format!("{:?} payload shape {si}: {detail}", cfg.codec), || json!({"engine": "E5", "cfg": cfg, "history": h, "brief": brief(&h)}));
+                    }
+                }
+            }
+            Ok(Err(_)) => {}
+            Err(p) => t.violation(&format!("{prop}/payload-shape/panic"), (6_700_000 + idx as u64, 0), || format!("shape {si}: {p}"), || json!({"engine": "E5", "cfg": cfg, "history": h})),
+        }
+    })
+}
+
 pub fn check(ctx: &Ctx, prop: &'static str) -> i32 {
     let (mut tally, mut meta) = collect(ctx, prop);
+    let t4 = payload_shapes(ctx, prop);
+    tally.count("payload_shape_histories", t4.evaluations);
+    tally.merge(t4);
     let t3 = lookalikes(ctx, prop);
     tally.count("lookalike_histories", t3.evaluations);
     tally.merge(t3);
     let t2 = scaling(ctx, prop);
     tally.count("scaling_histories", t2.evaluations);
     tally.merge(t2);
-    meta.rule = format!("{} Scaling family: fragments of every sample count 1..={} x 3 decode-step patterns x 2 flush cadences x 4 codecs (one 66 KB sample in some) plus fragments of 66 000 samples, replayed with the same model. Look-alike family: decode time (5 byte alignments), decode delta, composition offset or payload spelling each of 9 box codes x 4 codecs.", meta.rule, if ctx.thorough { 200 } else { 80 });
+    meta.rule = format!("{} Scaling family: fragments of every sample count 1..={} x 3 decode-step patterns x 2 flush cadences x 4 codecs (one 66 KB sample in some) plus fragments of 66 000 samples, replayed with the same model. Look-alike family: decode time (5 byte alignments), decode delta, composition offset or payload spelling each of 9 box codes x 4 codecs. Payload shapes: 9 payloads that look like Annex B / ADTS / padding (a length prefix spelling a start code among them) x every configuration.", meta.rule, if ctx.thorough { 200 } else { 80 });
     finish(ctx, &tally, meta)
 }
 
